@@ -65,7 +65,7 @@ def main():
         finally:
             shutil.rmtree(tmp, ignore_errors=True)
     # mutants that do not violate the stated property (documented in DESIGN.md): surviving is the expected outcome
-    allowed = {"C13_lre_desc": "C13 never states which neighbours LRE uses", "C19d_steep": "only the magnitude below the hull changes, which C19 does not state"}
+    allowed = {"C13_lre_desc": "C13 never states which neighbours LRE uses"}
     missed = [o for o in out if o[1] != "caught" and o[0] not in allowed]
     for o in out:
         if o[0] in allowed:
